@@ -154,14 +154,15 @@ def bus_events(trace):
     return [ev for ev in trace if ev[0] in ("R", "W")]
 
 
-def instruction_lemma(ctx, eng, ce, b, op, cb=None):
+def instruction_lemma(ctx, eng, ce, b, op, cb=None, haltbug=False):
     """returns dict of obligation-name-suffix -> (violation formula, state) for one opcode, split by aspect"""
     p = ctx.prog
     st = b.st.fork()
     pre = pre_regs(eng, st, b)
     # lemma hypotheses: boundary, nothing to dispatch, running, F low nibble zero, no halt bug pending
+    hb = fld(eng, st, b, "haltbug")
     hyp = [z3.Not(z3.And(pre["ime"], pending_term(eng, st, b))), z3.Not(fld(eng, st, b, "halted")),
-           z3.Not(fld(eng, st, b, "stopped")), z3.Not(fld(eng, st, b, "haltbug")), (pre["f"] & 0x0f) == 0]
+           z3.Not(fld(eng, st, b, "stopped")), (hb if haltbug else z3.Not(hb)), (pre["f"] & 0x0f) == 0]
     hyp += boundary_hyps(eng, st, b)
     for h in hyp:
         st.pc.append(h)
@@ -185,8 +186,12 @@ def instruction_lemma(ctx, eng, ce, b, op, cb=None):
         return rd
     nscript = len(script)
     specs = {}
+    spre = dict(pre)
+    if haltbug:
+        # the halt bug: the opcode fetch does not advance PC, i.e. the instruction runs as if it were located one byte earlier
+        spre["pc"] = pre["pc"] - 1
     for taken in ((True, False) if conditional else (True,)):
-        specs[taken] = sm83.spec(op, cb, pre, mkrd(nscript), taken)
+        specs[taken] = sm83.spec(op, cb, spre, mkrd(nscript), taken)
     if specs[True].special == "undefined":
         # the only deliberate stop: os.Exit through the `fatal` closure, nothing else
         exits = [t for t in eng.terminals if t.kind == "exit"]
@@ -239,6 +244,13 @@ def instruction_lemma(ctx, eng, ce, b, op, cb=None):
                 fr.append(ifld(eng, s, b, "ime") != pre["ime"])
             elif sp.ime is True or sp.ime is False:
                 fr.append(ifld(eng, s, b, "ime") != z3.BoolVal(sp.ime))
+            for nm in ("eiPending", "eiDelay", "imeScheduled", "enableInterrupts"):
+                if has_field(eng, b, nm):
+                    armed = fld(eng, s, b, nm)
+                    if sp.ime == "ei":
+                        fr.append(z3.Not(z3.Or(armed, ifld(eng, s, b, "ime"))))
+                    else:
+                        fr.append(armed)
             if sp.special is None:
                 fr.append(fld(eng, s, b, "halted"))
                 fr.append(fld(eng, s, b, "stopped"))
@@ -468,3 +480,123 @@ def dispatch_replay(ctx, prop, ob, res):
 def ei_replay(ctx, prop, ob, res):
     from props.cpu_replay import replay_instruction
     return replay_instruction(ctx, prop, ob, res)
+
+
+def state_same(eng, b, s, pre_state, extra_ok=()):
+    """violation: some architectural CPU field or interrupt register differs between s and pre_state"""
+    v = []
+    for r in ARCH_FIELDS:
+        if r in extra_ok:
+            continue
+        v.append(fld(eng, s, b, r) != fld(eng, pre_state, b, r))
+    for e in IBITS:
+        v.append(ifld(eng, s, b, e + "Requested") != ifld(eng, pre_state, b, e + "Requested"))
+        v.append(ifld(eng, s, b, e + "Enabled") != ifld(eng, pre_state, b, e + "Enabled"))
+    v.append(ifld(eng, s, b, "ime") != ifld(eng, pre_state, b, "ime"))
+    v.append(ifld(eng, s, b, "ieHighBits") != ifld(eng, pre_state, b, "ieHighBits"))
+    return z3.Or(*v)
+
+
+def halt_lemmas(ctx, eng, ce):
+    lem = Lem()
+    b = make_base(ctx, eng, ce)
+    emc = ctx.prog.func(CPU + "ExecuteMachineCycle").name
+
+    def start(hyps):
+        st = b.st.fork()
+        pre = pre_regs(eng, st, b)
+        for h in hyps(st, pre) + [(pre["f"] & 0x0f) == 0] + boundary_hyps(eng, st, b):
+            st.pc.append(h)
+        return st, pre, st.fork()
+
+    def rep(ninstr=1):
+        return {"ninstr": ninstr, "replay": lambda c, pr, o, res: dispatch_replay(c, pr, o, res)}
+    # (1) HALT executed: halts unless IME is clear and a request is already pending (then: halt bug)
+    st, pre, pre_state = start(lambda st, pre: [z3.Not(z3.And(pre["ime"], pending_term(eng, st, b))), z3.Not(fld(eng, st, b, "halted")),
+                                                z3.Not(fld(eng, st, b, "stopped")), z3.Not(fld(eng, st, b, "haltbug"))])
+    lem.covers.append(("lemma:halt#cover", pre_state.pcond()))
+    eng.terminals, eng.obligs = [], []
+    finals = run_to_boundary(ctx, eng, b, st, [0x76])
+    pend0 = pending_term(eng, pre_state, b)
+    bug = z3.And(z3.Not(pre["ime"]), pend0)
+
+    def chk_halt(s, n):
+        g = s.pcond()
+        evs = bus_events(s.trace)
+        return {"decision": z3.And(g, z3.Or(fld(eng, s, b, "halted") != z3.Not(bug), fld(eng, s, b, "haltbug") != bug)),
+                "one-cycle": z3.And(g, z3.BoolVal(n != 1 or len(evs) != 1)),
+                "rest-unchanged": z3.And(g, z3.Or(fld(eng, s, b, "pc") != pre["pc"] + 1, state_same(eng, b, s, pre_state, ("pc", "halted", "haltbug"))))}
+    add_group(lem, "lemma:halt-executed", finals, chk_halt, pre_state, rep())
+    if not finals:
+        lem.add("lemma:halt-executed:flow", z3.BoolVal(True))
+    for ob in lem.obligs:
+        ob.base, ob.eng, ob.finals = b, eng, finals
+    # (2) idle invariant: halted and nothing pending: one machine cycle changes nothing and touches no bus
+    st, pre, pre_state = start(lambda st, pre: [fld(eng, st, b, "halted"), z3.Not(pending_term(eng, st, b)), z3.Not(fld(eng, st, b, "haltbug"))])
+    lem.covers.append(("lemma:halt-idle#cover", pre_state.pcond()))
+    st.ghost["cycle"] = 1
+    outs = eng.call_function(st, emc, [b.cpu])
+    viol = []
+    for (s, _) in outs:
+        viol.append(z3.And(s.pcond(), z3.Or(state_same(eng, b, s, pre_state), z3.BoolVal(len(s.trace) != len(pre_state.trace)))))
+    lem.add("lemma:halt-idle:cycle-changes-nothing", z3.Or(*viol) if viol else z3.BoolVal(True))
+    lem.add("canary:halt-idle-clears-halted", z3.And(outs[0][0].pcond(), fld(eng, outs[0][0], b, "halted")) if outs else z3.BoolVal(False),
+            info={"canary": True})
+    # (3) halted, IME set, request appears: dispatched, one machine cycle later than from a running CPU
+    st, pre, pre_state = start(lambda st, pre: [fld(eng, st, b, "halted"), pending_term(eng, st, b), pre["ime"], z3.Not(fld(eng, st, b, "haltbug"))])
+    eng.terminals, eng.obligs = [], []
+    finals = run_to_boundary(ctx, eng, b, st, [])
+    k0 = len(lem.obligs)
+    add_group(lem, "lemma:halt-wake-ime1", finals,
+              lambda s, n: dict(dispatch_check(eng, b, pre_state, s, n, 6, s.pcond()),
+                                **{"no-fetch": z3.And(s.pcond(), z3.BoolVal(any(e[0] == "R" for e in bus_events(s.trace))))}), pre_state, rep())
+    if not finals:
+        lem.add("lemma:halt-wake-ime1:flow", z3.BoolVal(True))
+    for ob in lem.obligs[k0:]:
+        ob.base, ob.eng, ob.finals = b, eng, finals
+    # (4) halted, IME clear, request appears: one cycle, nothing dispatched or cleared, then the following instruction
+    st, pre, pre_state = start(lambda st, pre: [fld(eng, st, b, "halted"), pending_term(eng, st, b), z3.Not(pre["ime"]), z3.Not(fld(eng, st, b, "haltbug")),
+                                                z3.Not(fld(eng, st, b, "stopped"))])
+    eng.terminals, eng.obligs = [], []
+    finals = run_to_boundary(ctx, eng, b, st, [])
+    k0 = len(lem.obligs)
+    add_group(lem, "lemma:halt-wake-ime0", finals,
+              lambda s, n: {"one-cycle-no-bus": z3.And(s.pcond(), z3.BoolVal(n != 1 or len(bus_events(s.trace)) != 0)),
+                            "resumes": z3.And(s.pcond(), fld(eng, s, b, "halted")),
+                            "nothing-dispatched": z3.And(s.pcond(), state_same(eng, b, s, pre_state, ("halted",)))}, pre_state, rep())
+    fin2 = []
+    viol = []
+    for (s, n) in finals:
+        for (s2, n2) in run_to_boundary(ctx, eng, b, s, [0x00], cycle0=n):
+            evs = bus_events(s2.trace)
+            viol.append(z3.And(s2.pcond(), z3.Or(z3.BoolVal(len(evs) != 1 or evs[0][0] != "R"), evs[0][1] != pre["pc"] if evs else z3.BoolVal(True),
+                                                 fld(eng, s2, b, "pc") != pre["pc"] + 1)))
+            fin2.append((s2, n + n2))
+    ob = lem.add("lemma:halt-wake-ime0:then-next-instruction", z3.Or(*viol) if viol else z3.BoolVal(True), info=rep(2))
+    ob.pre = pre_state
+    for ob in lem.obligs[k0:]:
+        ob.base, ob.eng = b, eng
+        ob.finals = fin2 if ob.name.endswith("then-next-instruction") else finals
+    lem.stats = dict(eng.stats)
+    return lem
+
+
+def haltbug_task(chunk, idx):
+    def run(ctx, eng, ce):
+        lem = Lem()
+        b = make_base(ctx, eng, ce)
+        for (op, cb) in chunk:
+            if cb is None and (op in sm83.UNDEFINED or op == 0x76):
+                continue
+            out, pre_state, specs = instruction_lemma(ctx, eng, ce, b, op, cb, haltbug=True)
+            for asp in ASPECTS["C05"]:
+                items = out[asp]
+                viol = z3.Or(*[v for v, _ in items]) if items else z3.BoolVal(False)
+                ob = lem.add("lemma:haltbug:%s:%s" % (opname(op, cb), asp), viol, kind="lemma",
+                             info={"op": op, "cb": cb, "aspect": asp, "replay": cpu_replay})
+                ob.pre, ob.base, ob.eng, ob.finals = pre_state, b, eng, out["_finals"]
+                if concrete_bool(viol) is False:
+                    ob.trivial = True
+        lem.stats = dict(eng.stats)
+        return lem
+    return LemmaTask("haltbug[%d]" % idx, run, ["(*cpu.CPU).next (halt bug path)"])
